@@ -23,6 +23,7 @@ type Sl struct {
 	Len  *Term
 	Nil  *Term // Bool; strings: False
 	Str  bool
+	Cap  *Term // capacity when known (three-index slices, make); nil: unknown, >= Len
 }
 
 // St: struct value (by value).
